@@ -22,6 +22,7 @@ def _walk(j, f):
 
 
 AGG_OPS = {"sum", "min", "max", "mean", "any", "all", "count", "count_star", "str_join", "list_agg"}
+CMP_OPS = {"less_than", "less_equal", "greater_than", "greater_equal", "equal", "not_equal"}
 WIN_OPS = {"shift", "row_number", "rank", "dense_rank", "cum_sum"}
 
 
@@ -139,7 +140,8 @@ def triggers_of(program: dict, facts: dict[str, dict]) -> dict[str, list[str]]:
             if st.get("src") == st.get("right") or (l & r):
                 hit("D26", sid)
             hit("D40", sid)
-        if op == "join" and st.get("suffix") == "_right":
+        if op == "join" and (st.get("suffix") == "_right" or (st.get("how") == "left" and any(
+                isinstance(o, dict) and o.get("fn") != "equal" for o in (st.get("on") if isinstance(st.get("on"), list) else [st.get("on")])))):
             hit("D33", sid)
         if f.get("null_lit") and op in ("mutate", "filter", "summarize", "arrange"):
             hit("D27", sid)
@@ -150,6 +152,30 @@ def triggers_of(program: dict, facts: dict[str, dict]) -> dict[str, list[str]]:
             _walk(st, lambda d: found.append(1) if d.get("fn") in ("shift", "cum_sum") and d.get("args") and not _has_col(d["args"][0]) else None)
             if found:
                 hit("D39", sid)
+        if op in ("mutate", "summarize") and (ops & AGG_OPS):
+            found = []
+            _walk(st, lambda d: found.append(1) if d.get("fn") in AGG_OPS and d.get("args") and not _has_col(d["args"][0]) else None)
+            if found:
+                hit("D42", sid)
+        if op == "union" and "join" in f.get("right_chain", {}).get("verbs", []):
+            hit("D45", sid)
+        if op in ("select", "drop", "mutate") and f.get("agg_in_scope") and not f.get("summarized_group"):
+            hit("D48", sid)
+        if op == "join" and st.get("how") == "full" and "join" in f.get("chain", {}).get("verbs", []):
+            hit("D49", sid)
+        if op in ("mutate", "filter", "summarize", "arrange"):
+            found = []
+            _walk(st, lambda d: found.append(1) if d.get("fn") in CMP_OPS and d.get("args") and isinstance(d["args"][0], dict) and "lit" in d["args"][0] else None)
+            if found:
+                hit("D51", sid)
+        if op == "join" and st.get("how") in ("left", "full") and (
+                "mutate" in f.get("right_chain", {}).get("verbs", []) or
+                (st.get("how") == "full" and "mutate" in f.get("chain", {}).get("verbs", []))):
+            hit("D52", sid)
+        if op == "group_by" and st.get("add") and f.get("grouped"):
+            hit("D43", sid)
+        if op == "ungroup" and f.get("grouped") and f.get("summarized_group"):
+            hit("D44", sid)
         if "union" in f.get("chain", {}).get("verbs", []):
             hit("D38", sid)
         if op in ("mutate", "summarize") and "count_star" in ops:
